@@ -5,10 +5,15 @@ import itertools
 CFG = {
     # op: (application value range, guest value range, slots, dead slots allowed)
     "calls32": ((-(1 << 63), (1 << 63) - 1), (-(1 << 31), (1 << 31) - 1), 4),
+    "calls32h": ((-(1 << 63), (1 << 63) - 1), (-(1 << 31), (1 << 31) - 1), 4),
+    "calls32t": ((-(1 << 63), (1 << 63) - 1), (-(1 << 31), (1 << 31) - 1), 4),
+    "calls32i": ((-(1 << 63), (1 << 63) - 1), (-(1 << 31), (1 << 31) - 1), 4),
+    "calls32o": ((-(1 << 63), (1 << 63) - 1), (-(1 << 31), (1 << 31) - 1), 4),
     "callsw": ((-(1 << 31), (1 << 31) - 1), (-(1 << 63), (1 << 63) - 1), 4),
     "callsn": ((-(1 << 63), (1 << 63) - 1), (-(1 << 63), (1 << 63) - 1), 64),
     "callsne": ((-(1 << 63), (1 << 63) - 1), (-(1 << 63), (1 << 63) - 1), 64),
     "callsd": ((-(1 << 63), (1 << 63) - 1), (-(1 << 63), (1 << 63) - 1), 64),
+    "callsde": ((-(1 << 63), (1 << 63) - 1), (-(1 << 63), (1 << 63) - 1), 64),
 }
 NSB, NFN = 3, 8
 
